@@ -950,16 +950,22 @@ m("C10", "filler-defaults-none", C,
                             load("None"),
                         ],''')
 m("C10", "name-placeholder-inside-block", C,
-  '''        code = self.visit(node.node)
-        body.append(TranslationContext(code, append, stream))
+  '''            body=[TranslationContext(code, append, stream)],
+            handlers=[],
+            orelse=[],
+            finalbody=template("stream = ''.join(stream)", stream=stream),
+        ))
 
         # output msgid
         text = Text('${%s}' % node.name)
         body += self.visit(text)
 ''',
-  '''        code = self.visit(node.node)
-        text = Text('${%s}' % node.name)
-        body.append(TranslationContext(code + self.visit(text), append, stream))
+  '''            body=[TranslationContext(
+                code + self.visit(Text('${%s}' % node.name)), append, stream)],
+            handlers=[],
+            orelse=[],
+            finalbody=template("stream = ''.join(stream)", stream=stream),
+        ))
 ''')
 m("C10", "message-object-stringified", C,
   '''                    __converted = translate(
@@ -2518,3 +2524,42 @@ for _p in ("C13", "C05"):
         fallback_body = self.visit(node.fallback)
         fallback_body.extend(self._leave_assignment(names))""",
       expect="silent")
+
+
+# ---- fix 7e45501: the stream of a named block is joined in a finally
+m("C10", "name-join-not-in-finally", C,
+  """        body.append(ast.Try(
+            body=[TranslationContext(code, append, stream)],
+            handlers=[],
+            orelse=[],
+            finalbody=template("stream = ''.join(stream)", stream=stream),
+        ))
+""",
+  """        body.append(TranslationContext(code, append, stream))
+        body += template("stream = ''.join(stream)", stream=stream)
+""")
+m("C10", "name-join-in-orelse", C,
+  """            handlers=[],
+            orelse=[],
+            finalbody=template("stream = ''.join(stream)", stream=stream),
+        ))
+""",
+  """            handlers=[ast.ExceptHandler(
+                type=None, name=None, body=[ast.Raise(None, None)])],
+            orelse=template("stream = ''.join(stream)", stream=stream),
+            finalbody=[],
+        ))
+""")
+m("C10", "refactor-name-join-local", C,
+  """        body.append(ast.Try(
+            body=[TranslationContext(code, append, stream)],
+            handlers=[],
+            orelse=[],
+            finalbody=template("stream = ''.join(stream)", stream=stream),
+        ))
+""",
+  """        join = template("stream = ''.join(stream)", stream=stream)
+        block = TranslationContext(code, append, stream)
+        body.append(ast.Try(body=[block], handlers=[], orelse=[],
+                            finalbody=join))
+""", expect="silent")
